@@ -54,8 +54,17 @@ partial def showDocs : List Doc → List StartInfo → String × List StartInfo
     let (r, rest3) := showDocs ds rest2
     (s!"<{showL n}|{i}>[{inner}]" ++ r, rest3)
 
-def handle : List String → String
-  | [which, void, dup, lines, pre, cont, sevs] =>
+/-- `orig=-` or `orig=129:1026.141:1036,8204`: what `bytearray([n]).decode(original_encoding)` gives (absent = it fails) -/
+def parseOrig (s : String) : Nat → Option PStr :=
+  let body := (s.drop 5).toString
+  let tbl : List (Nat × PStr) := (splitNE "." body).filterMap fun e =>
+    match e.splitOn ":" with
+    | [n, v] => n.toNat?.map fun k => (k, cps v)
+    | _ => none
+  fun n => (tbl.find? (fun e => e.1 == n)).map (·.2)
+
+def handleWith : String → String → String → String → String → String → String → String → String
+  | which, void, dup, lines, pre, cont, orig, sevs =>
     let bcfg0 := C03.mkCfg pre cont
     let bcfg := { bcfg0 with asciiSpaces := BS.Gen.asciiSpaces, rootName := BS.Gen.rootTagName }
     match (splitNE ";" sevs).mapM parseSEv with
@@ -71,10 +80,14 @@ def handle : List String → String
           storeLines := lines == "lines=1",
           entity := fun n => ((ents.find? (fun e => e.1 == n)).map (·.2)).join,
           cp1252 := fun n => (BS.Gen.cp1252Table.find? (fun e => e.1 == n)).map (·.2),
-          origDecode := fun _ => none,
+          origDecode := parseOrig orig,
           maxDigits := BS.Gen.intMaxStrDigitsC04 }
       let r := if which == "adaptold" then toEventsOld cfg sevs else toEvents cfg sevs
       (showDocs (build bcfg r.1) r.2).1
+
+def handle : List String → String
+  | [which, void, dup, lines, pre, cont, sevs] => handleWith which void dup lines pre cont "orig=-" sevs
+  | [which, void, dup, lines, pre, cont, orig, sevs] => handleWith which void dup lines pre cont orig sevs
   | _ => "bad-op"
 
 end BS.Drv.C04
